@@ -12,7 +12,7 @@ static void install(C& c, S& s)
     {
         c.m_open_list.m_data[i] = s.u64();
         auto& e                 = c.m_elements.m_data[i];
-        e.m_value               = s.u64();
+        e.m_value               = VAL_T(s.u64());
         e.m_open_list_position  = s.u64();
         e.m_keyed_position.i    = s.u64();
         e.m_keyed_position.m    = s.b() ? &c.m_keyed_elements : nullptr;
@@ -61,6 +61,6 @@ static void alpha(C& c, Abs& a)
         {
             auto& e = c.m_elements.m_data[c.m_open_list.m_data[p]];
             a.k[p]  = c.m_keyed_elements.m_pool[e.m_keyed_position.i].kv.first;
-            a.v[p]  = e.m_value;
+            a.v[p]  = val_u(e.m_value);
         }
 }
